@@ -170,5 +170,8 @@ Definition arrive (k : skind) (refs : list ustr) (t : table) : result (list rawr
               (map (fun v => match v with VNull => CNone | VStr [] => CNone | VStr s => CStr s | VInt z => CStr (dec_of_Z z)
                                       | VFloatI z => CStr (dec_of_Z z ++ u ".0") | VBool true => CStr (u "True") | VBool false => CStr (u "False") end) r))
               (t_rows t))
-  | SFrame => Ok (map (fun r => project refs r) (coerce_rows (t_cols t) (t_rows t)))
+  | SFrame =>
+      (* python_data.get_ram_data: every double quote is removed from the string cells of object columns *)
+      Ok (map (fun r => project refs (map (fun kc => (fst kc, match snd kc with CStr s => CStr (filter (fun c => negb (c =? 34)) s) | c => c end)) r))
+              (coerce_rows (t_cols t) (t_rows t)))
   end.
